@@ -2030,6 +2030,7 @@ def to_arrow(
                     )
 
             if numpy_arr.ndim == 1:
+                numpy_arr = numpy.ascontiguousarray(numpy_arr)
                 if mask is not None:
                     return pyarrow.Array.from_buffers(
                         arrow_type,
